@@ -159,7 +159,7 @@ impl Gen7 {
                 let mut fallback = |g: &mut Self| if g.rng.chance(1, 3) { Ex::Val(val(match ty { 'i' => Value::Int(None), 'r' => Value::Double(None), _ => Value::String(None) })) } else { Ex::Val(g.value(ty)) };
                 if self.rng.chance(1, 2) { let f = fallback(self); Ex::Func(Fun::Std(7), false, vec![e, f]) } else { let (f1, f2) = (fallback(self), fallback(self)); Ex::Func(Fun::Std(5), false, vec![e, f1, f2]) }
             } else { e };
-            let kind = if self.rng.chance(1, 6) { let n = 1 + self.rng.below(3) as usize; OrderKind::Field((0..n).map(|_| self.value(ty)).collect()) } else if self.rng.chance(1, 2) { OrderKind::Desc } else { OrderKind::Asc };
+            let kind = if self.rng.chance(1, 6) { let n = 1 + self.rng.below(3) as usize; OrderKind::Field((0..n).map(|_| if ty == 't' && self.rng.chance(1, 2) { val(Value::String(Some(Box::new(self.rng.pick(&["it's", "back\\slash", "q?m", "$1", "two\nlines", "a'b\\"]).to_string())))) } else { self.value(ty) }).collect()) } else if self.rng.chance(1, 2) { OrderKind::Desc } else { OrderKind::Asc };
             let nulls_first = match self.rng.below(4) { 0 => Some(true), 1 => Some(false), _ => None };
             if matches!(kind, OrderKind::Field(_)) && nulls_first.is_some() { self.field_nulls = true; }
             out.push(OrderItem { e, kind, nulls_first });
